@@ -250,6 +250,30 @@ pub fn generate(tier: Tier, rng: &mut Rng) -> Vec<Case> {
             out.push(c);
         }
     }
+    // every way of using the iteration variable resolves to the element, also when the root binds
+    // the same name to a map: bare, selected (`x.v`), tested (`has(x.v)`), indexed, as receiver and
+    // as argument
+    {
+        let mk = |v: i64| -> Value { Value::Map(cel_interpreter::objects::Map { map: std::sync::Arc::new(std::collections::HashMap::from([(cel_interpreter::objects::Key::String(std::sync::Arc::new("v".to_string())), Value::Int(v))])) }) };
+        for root_x in [false, true] {
+            let mut spec = CtxSpec::default_ctx();
+            if root_x {
+                spec.vars.push(("x".into(), mk(100)));
+                spec.vars.push(("y".into(), mk(200)));
+                spec.scopes.push(vec![("y".to_string(), mk(300))]);
+            }
+            for src in [
+                "[{'v': 1}, {'v': 2}].map(x, x.v)", "[{'v': 1}, {'w': 2}].map(x, has(x.v))", "[{'v': 1}].map(x, x['v'])", "[{'v': 1}].map(x, x.size())", "[{'v': 1}].map(x, size(x))", "[{'v': 1}, {'v': 2}].filter(x, x.v > 1)",
+                "[{'v': 1}].all(x, has(x.v) && x.v == 1)", "[{'v': 1}].map(y, y.v)", "[{'v': 1}].map(y, [{'v': 5}].map(x, x.v + y.v))", "[{'v': 1}].map(x, [x].map(y, y.v))", "[{'v': {'v': 7}}].map(x, x.v.v)",
+                "[{'v': 1}].exists(x, x.v == 1) ? [{'v': 3}].map(y, has(y.w)) : []", "[{'w': 1}].map(x, has(x.v) ? x.v : -1)", "[{'v': 1}].map(x, {'k': x.v})", "[{'v': 1}].map(x, [x.v, x.v])",
+            ] {
+                if let Some(mut c) = eval_case_from_src(&spec, src) {
+                    c.tags = vec!["program", "iteration-variable-selected"];
+                    out.push(c);
+                }
+            }
+        }
+    }
     // the outer iteration variable used ONLY inside a nested macro (body, predicate or range), at
     // two and three levels, with and without a root variable of the same name; maps as ranges
     for root_x in [false, true] {
